@@ -467,3 +467,85 @@ Proof.
   rewrite join_splitnl. destruct (value_lines_ok v Hv) as [_ [_ Rv]]. rewrite Rv. reflexivity.
 Qed.
 End Steps.
+
+(* ------------------------------------------------------------------ one section, the whole table *)
+Lemma steps_section D R c o i n es :
+  String.eqb n "DEFAULT" = false -> al_mem n R = false -> name_ok n = true -> entries_ok es = true ->
+  exists E' o' i',
+    steps (mkR D R c o i) (section_lines (n, es)) = Some (mkR D (R ++ [(n, E')])%list (Some n) o' i') /\
+    finish_entries E' = es.
+Proof.
+  intros Hd Hf Hn He. unfold section_lines. cbn [fst snd steps].
+  rewrite (step_header D R n Hd Hf c o i Hn). rewrite steps_app.
+  unfold entries_ok in He. apply andb_true_iff in He as [Hnd Hes].
+  destruct (steps_entries D R n Hd Hf es [] None 0 Hnd Hes (fun x _ => eq_refl)) as [o' [i' Hs]].
+  rewrite Hs. cbn [app steps].
+  destruct (step_blank D R n Hd Hf (map raw_entry es) o' i') as [E' [Hb Hfin]].
+  rewrite Hb. exists E', o', i'. split; [reflexivity|].
+  rewrite Hfin. exact (finish_raw es Hes).
+Qed.
+
+Definition finish_sec (x : string * rentries) : string * entries := (fst x, finish_entries (snd x)).
+
+Lemma steps_table t : forall D R c o i seen,
+  names_ok seen t = true -> sections_ok t = true ->
+  (forall x, al_mem x R = true -> mem x seen = true) ->
+  exists s', steps (mkR D R c o i) (flat_map section_lines t) = Some s' /\ defs s' = D /\
+             map finish_sec (secs s') = (map finish_sec R ++ t)%list.
+Proof.
+  induction t as [|[n es] t IH]; intros D R c o i seen Hn Hs Hseen.
+  - exists (mkR D R c o i). cbn [flat_map steps defs secs]. rewrite app_nil_r. repeat split; reflexivity.
+  - cbn [names_ok] in Hn. apply andb_true_iff in Hn as [Hn Hn3]. apply andb_true_iff in Hn as [Hn1 Hn2].
+    apply negb_true_iff in Hn1, Hn2.
+    cbn [sections_ok forallb fst snd] in Hs. apply andb_true_iff in Hs as [Hs1 Hs2].
+    apply andb_true_iff in Hs1 as [Hname Hent].
+    assert (Hf : al_mem n R = false).
+    { destruct (al_mem n R) eqn:X; [|reflexivity]. rewrite (Hseen n X) in Hn2. discriminate. }
+    destruct (steps_section D R c o i n es Hn1 Hf Hname Hent) as [E' [o' [i' [Hsec Hfin]]]].
+    assert (Hseen' : forall x, al_mem x (R ++ [(n, E')])%list = true -> mem x (n :: seen) = true).
+    { intros x Hx. rewrite al_mem_app in Hx. unfold mem. cbn [existsb].
+      apply orb_true_iff in Hx as [Hx|Hx].
+      - apply Hseen in Hx. unfold mem in Hx. rewrite Hx. apply orb_true_r.
+      - unfold al_mem in Hx. cbn [existsb fst] in Hx. rewrite orb_false_r in Hx. rewrite Hx. reflexivity. }
+    destruct (IH D (R ++ [(n, E')])%list (Some n) o' i' (n :: seen) Hn3 Hs2 Hseen') as [s' [H1 [H2 H3]]].
+    exists s'. cbn [flat_map]. rewrite steps_app, Hsec. split; [exact H1|]. split; [exact H2|].
+    rewrite H3, map_app, <- app_assoc. cbn [map app]. unfold finish_sec at 2. cbn [fst snd]. rewrite Hfin.
+    reflexivity.
+Qed.
+
+(* inside the guard nothing goes to the defaults: no section is named '' *)
+Lemma no_empty_name t : sections_ok t = true ->
+  lookup "" t = None /\ map (fun s => section_text (own_section s)) t = map section_text t.
+Proof.
+  induction t as [|[n es] t IH]; intros H; [split; reflexivity|].
+  cbn [sections_ok forallb fst snd] in H. apply andb_true_iff in H as [Hs Ht]. apply andb_true_iff in Hs as [Hn _].
+  destruct (IH Ht) as [L M]. destruct n as [|a n]; [discriminate|].
+  split.
+  - cbn [lookup]. change (String.eqb "" (String a n)) with false. exact L.
+  - cbn [map]. rewrite M. reflexivity.
+Qed.
+
+Lemma guard_values_ok t : sections_ok t = true -> values_ok t = true.
+Proof.
+  unfold sections_ok, values_ok. intros H. apply forallb_forall. intros s Hs.
+  rewrite forallb_forall in H. specialize (H s Hs). apply andb_true_iff in H as [_ H].
+  apply entries_ok_each in H. apply forallb_forall. intros e He.
+  rewrite forallb_forall in H. specialize (H e He). apply andb_true_iff in H as [_ H].
+  unfold value_ok in H. repeat (apply andb_true_iff in H as [H _]). exact H.
+Qed.
+
+Theorem text_roundtrip t :
+  table_ok t = true -> exists txt, write_table t = Some txt /\ read_text txt = Some ([], t).
+Proof.
+  unfold table_ok. intros H. apply andb_true_iff in H as [Hn Hs]. fold (sections_ok t) in Hs.
+  destruct (no_empty_name t Hs) as [L M].
+  exists (cat (map section_text t)). split.
+  - unfold write_table. rewrite Hn, (guard_values_ok t Hs). cbn [andb].
+    unfold defaults_text. rewrite L, M. reflexivity.
+  - unfold read_text. rewrite (lines_table t Hs).
+    destruct (steps_table t [] [] None None 0 [] Hn Hs) as [s' [H1 [H2 H3]]].
+    { intros x Hx. discriminate. }
+    unfold init. rewrite H1. unfold finish. rewrite H2. cbn [finish_entries map].
+    change (map (fun x : string * rentries => (fst x, finish_entries (snd x))) (secs s')) with (map finish_sec (secs s')).
+    rewrite H3. reflexivity.
+Qed.
